@@ -365,6 +365,9 @@ def progfuzz(prop, tier, seed, replay=None):
     replay_data = None
     if replay:
         replay_data = json.load(open(replay))
+        if replay_data.get("rerun"):
+            # a crash has no smaller reproducible unit than the run itself: repeat it at the recorded seed and tier
+            return dict(replay=False, rerun=dict(seed=replay_data.get("seed", seed), tier=replay_data.get("tier", tier)))
         if replay_data.get("compile_replay"):
             failed, tail = replay_compile(prop, replay_data)
             return dict(replay=True, failed=failed, detail=dict(replayed="compile", failed=failed, diagnostic=tail))
@@ -447,6 +450,16 @@ def progfuzz(prop, tier, seed, replay=None):
                 results.append(dict(evaluations=1, runs=1, nontrivial=0, too_big=0, distribution={"deadlocked_runner_processes": 1},
                                     samples=[dict(deadlocked_case=(dl.get("ops") or dl.get("input") or "")[:2000], process_config=pc)],
                                     violations=[v], infra_errors=[], known=[]))
+                continue
+            if not os.path.exists(res_path) and (pr.returncode < 0 or pr.returncode in (134, 139)):
+                # killed by a signal (abort / segmentation fault) inside generated or library code
+                tail = pr.stdout[-1500:]
+                v = dict(property=prop, base="crash", seed=seed, program_text=tail, ref_ast="", input={}, input_text="process config %s" % pc,
+                         failures=[dict(variant="?", entry="?", pool=None, perturb_seed=0, kind="crash", mismatches=[],
+                                        panic_msg="the runner was killed by signal %d while executing generated programs" % (-pr.returncode if pr.returncode < 0 else pr.returncode - 128))],
+                         signature="%s:crash" % prop, shrunk=False, entries=[], members=[], ops=None, proc_config=pc, rerun=True, tier=tier)
+                results.append(dict(evaluations=1, runs=1, nontrivial=0, too_big=0, distribution={"crashed_runner_processes": 1},
+                                    samples=[dict(crashed_run=dict(seed=seed, tier=tier, process_config=pc))], violations=[v], infra_errors=[], known=[]))
                 continue
             if not os.path.exists(res_path):
                 sys.stderr.write(pr.stdout[-4000:])
@@ -761,6 +774,16 @@ def libprops(prop, tier, seed):
     if os.path.exists(out):
         os.remove(out)
     pr = sh([exe, prop, "--tier", tier, "--seed", str(seed), "--out", out], check=False)
+    if pr.returncode < 0 or pr.returncode in (134, 139):
+        # the test binary was killed by a signal (abort, segmentation fault): memory corruption or an abort inside the
+        # library code it drives (never seen on the unchanged tree); the whole run at this seed is the replay
+        cfg = LIBPROPS[prop]
+        tail = pr.stdout[-1500:]
+        v = dict(property=prop, base="%s-libprops" % prop, signature="%s:crash:signal %d" % (prop, -pr.returncode if pr.returncode < 0 else pr.returncode - 128),
+                 failures=[dict(kind="crash", what="the property test binary was killed by a signal while driving the library", output_tail=tail)],
+                 program_text=tail, input_text="", seed=seed, tier=tier, rerun=True)
+        cov = dict(evaluations=1, distinct_nontrivial=0, rule=cfg["rule"], samples=[dict(crashed_run=dict(seed=seed, tier=tier))], distribution={"crashed_runs": 1})
+        return finish(prop, tier, seed, cfg["level"], cov, cfg["assumptions"], time.time() - t0, [v], [])
     if pr.returncode != 0 or not os.path.exists(out):
         sys.stderr.write(pr.stdout[-3000:])
         raise Inconclusive("libprops exited with %d" % pr.returncode)
@@ -987,6 +1010,9 @@ def main(argv):
     try:
         if prop in PROGFUZZ:
             run = progfuzz(prop, tier, seed, replay)
+            if run.get("rerun"):
+                seed, tier = run["rerun"]["seed"], run["rerun"]["tier"]
+                run = progfuzz(prop, tier, seed, None)
             if run["replay"]:
                 if run["failed"]:
                     print("VIOLATION property=%s replay=%s" % (prop, replay))
